@@ -1,4 +1,5 @@
 import Toq.Core.EMat
+import Toq.Core.Rank
 import Toq.Model.ChannelOps
 /-!
 # Exact deciders of the channel predicates (`toqito/channel_props/*.py`) and closed-form models of the
@@ -152,32 +153,15 @@ def QM.get (M : QM) (i j : Nat) : QI := (M[i]!)[j]!
 def QM.ofFn (r c : Nat) (f : Nat → Nat → QI) : QM :=
   (Array.range r).map fun i => (Array.range c).map fun j => f i j
 
-/-- Gauss–Jordan elimination of an `r × c` matrix; returns the reduced matrix and the pivot columns -/
-def rowReduce (r c : Nat) (M : QM) : QM × List Nat := Id.run do
-  let mut A := M
-  let mut piv : List Nat := []
-  let mut row := 0
-  for col in [0:c] do
-    if row < r then
-      let mut p := r
-      for i in [row:r] do
-        if p == r && A.get i col != 0 then p := i
-      if p < r then
-        A := A.swapIfInBounds row p
-        let inv := qinv (A.get row col)
-        let prow := (A[row]!).map (· * inv)
-        A := A.set! row prow
-        for i in [0:r] do
-          if i != row then
-            let t := A.get i col
-            if t != 0 then
-              A := A.set! i ((A[i]!).mapIdx fun j x => x - t * prow[j]!)
-        piv := piv ++ [col]
-        row := row + 1
-  return (A, piv)
+/-- pivot columns of the `r × c` block of `M` (the lexicographically first maximal independent set of columns) by
+    Gaussian elimination over `ℚ[i]`: the shared, proved routine `Toq.Rank.pivotsFn` (`Toq/Core/Rank.lean`);
+    they are linearly independent and there are `rank M` of them (`Toq.C06.pivotCols_length`,
+    `Toq.C06.pivotCols_linearIndependent`) -/
+def pivotCols (r c : Nat) (M : QM) : List Nat := Toq.Rank.pivotsFn r c M.get
 
-/-- exact rank -/
-def rankQ (r c : Nat) (M : QM) : Nat := (rowReduce r c M).2.length
+/-- exact rank: the shared, proved routine `Toq.Rank.rankFn`; equal to Mathlib's `Matrix.rank` of the denoted
+    complex matrix (`Toq.C06.rankQ_eq_rank`) -/
+def rankQ (r c : Nat) (M : QM) : Nat := Toq.Rank.rankFn r c M.get
 
 /-! ## Choi rank, unitarity, extremality by definition -/
 
@@ -197,7 +181,7 @@ def adjMulFlat (di dO : Nat) (W W' : Nat → Nat → QI) : Array QI :=
     changes of the basis `W`, so any basis of the column space may be used; cited, not proved.) -/
 def extremalDecide (di dO : Nat) (J : QM) : Bool :=
   let N := di * dO
-  let piv := (rowReduce N N J).2
+  let piv := pivotCols N N J
   let r := piv.length
   let Ws := piv.map (unvecCol di dO J)
   let fam : List (Array QI) := Ws.flatMap fun W => Ws.map fun W' => adjMulFlat di dO W W'
